@@ -47,5 +47,8 @@ package resolver
 //@ func NewResolver
 //@   property C19
 //@   returns (res, err)
+//@   ghost norm ref = 0
+//@   at call normalizeAddrs: ghost norm = ptr(result0)
+//@   at store complit.addrs: assert [the-resolver-dials-the-normalised-addresses] ptr(arg0) == norm
 //@   ensures [empty-list-refused] len(addrs) == 0 ==> err != nil && res == nil
 //@   ensures [resolver-or-error] err == nil ==> res != nil
